@@ -13,7 +13,7 @@ package c17
 //	OP <i> <name>            the i-th step of the schedule begins
 //	EMIT <sexp>              a call left the executor: (S RUNNING|FINISHED|FAILED|KILLED) status update,
 //	                         (E <final> <voluntary> <exitcode>) BASIC_TASK_TERMINATED device event
-//	RES <i> <sexp>           result of step i
+//	RES <i> <sexp>           result of step i; for an overlap (par A B): (par <result of A> <result of B>)
 //	LOOPEXIT                 eventLoop returned (the executor would disconnect / exit)
 //	INCONCLUSIVE <why>       harness trouble (timing inversion, ceiling on something that is not an observation)
 //	HANG <i>                 step i did not complete within the generous ceiling
@@ -33,6 +33,7 @@ import (
 	"io"
 	"os"
 	"os/exec"
+	"os/signal"
 	"path/filepath"
 	"strconv"
 	"strings"
@@ -93,6 +94,7 @@ type rec struct {
 	kind string // S, E, R (transition response), H (trigger response), L (log marker), X (loop exit)
 	a, b string
 	c    string
+	id   string // R, H, L: the id of the command the record answers (overlapping requests are told apart by it)
 }
 
 type agent struct {
@@ -195,14 +197,15 @@ func (a *agent) Send(_ context.Context, r calls.Request) (mesos.Response, error)
 			fmt.Fprintf(os.Stderr, "MSG %s\n", string(c.Message.Data))
 		}
 		name, _ := m["name"].(string)
+		id, _ := m["id"].(string)
 		switch {
 		case name == "MesosCommand_Transition":
 			st, _ := m["state"].(string)
 			es, _ := m["error"].(string)
-			a.add(rec{kind: "R", a: st, b: b01(es != "")})
+			a.add(rec{kind: "R", a: st, b: b01(es != ""), id: id})
 		case name == "MesosCommand_TriggerHook":
 			es, _ := m["error"].(string)
-			a.add(rec{kind: "H", b: b01(es != "")})
+			a.add(rec{kind: "H", b: b01(es != ""), id: id})
 		case m["finalMesosState"] != nil:
 			fin := "?"
 			if f, ok := m["finalMesosState"].(float64); ok {
@@ -239,15 +242,33 @@ func (h logHook) Levels() []logrus.Level {
 	return []logrus.Level{logrus.ErrorLevel, logrus.WarnLevel}
 }
 func (h logHook) Fire(e *logrus.Entry) error {
+	// the three MESSAGE paths log the message they could not serve: its command id tells overlapping requests apart
+	id := ""
+	if msg, ok := e.Data["message"].(string); ok {
+		id = commandID([]byte(msg))
+	}
 	switch {
 	case strings.Contains(e.Message, "cannot unmarshal incoming MESSAGE"):
-		h.a.add(rec{kind: "L", a: "norpc"})
+		h.a.add(rec{kind: "L", a: "norpc", id: id})
 	case strings.Contains(e.Message, "no task for incoming MESSAGE"):
-		h.a.add(rec{kind: "L", a: "notask"})
+		h.a.add(rec{kind: "L", a: "notask", id: id})
 	case strings.Contains(e.Message, "received TriggerHook for non-hook task"):
-		h.a.add(rec{kind: "L", a: "nonhook"})
+		h.a.add(rec{kind: "L", a: "nonhook", id: id})
+	case strings.Contains(e.Message, "KILL for a task that is not active"):
+		// handleKillEvent found no active task (logged inside the handler, before it returns); kind K so that the
+		// waits of the MESSAGE steps never mistake it for their own completion signal
+		h.a.add(rec{kind: "K", a: "ignored"})
 	}
 	return nil
+}
+
+// commandID: the "id" member of a command / response in its JSON form.
+func commandID(data []byte) string {
+	var m struct {
+		ID string `json:"id"`
+	}
+	_ = json.Unmarshal(data, &m)
+	return m.ID
 }
 
 // ---- the case -------------------------------------------------------------------
@@ -317,6 +338,9 @@ func scriptParts(beh string) (string, []string) {
 		return pre + wait, []string{"kill", "-KILL", "$$"}
 	case "fork":
 		return pre + "sleep 300 & " + wait, []string{"exit", "0"}
+	case "ign":
+		// ignores SIGTERM and SIGINT (and so does everything it starts): only SIGKILL ends it before its time
+		return "trap '' TERM INT; " + pre + wait, []string{"exit", "0"}
 	}
 	return "exit", []string{"0"}
 }
@@ -341,6 +365,9 @@ func childMain(beh string) {
 	if beh == "fork" {
 		c := exec.Command("sleep", "300")
 		_ = c.Start() // same process group, outlives us
+	}
+	if beh == "ign" {
+		signal.Ignore(syscall.SIGTERM, syscall.SIGINT)
 	}
 	for {
 		if _, err := os.Stat(filepath.Join(dir, fmt.Sprintf("go.%d", n))); err == nil {
@@ -593,6 +620,290 @@ func (r *runner) childRegistered() stepOutcome {
 	return stepOK
 }
 
+// ---- overlapping requests --------------------------------------------------------
+
+// isRequest: the steps that are requests of the core (events delivered to the executor), as opposed to the
+// asynchronous happenings `tick` and `await`.
+func isRequest(op string) bool {
+	switch op {
+	case "start", "stop", "conf", "trigger", "kill":
+		return true
+	}
+	return false
+}
+
+// spawnsChild: does the request start a child when it is served (START of a basic task, trigger of a hook)?
+func spawnsChild(kind, op string) bool {
+	return (kind == "basic" && op == "start") || (kind == "hook" && op == "trigger")
+}
+
+// parOK: the overlaps the harness can observe and the model describes. Left out: two requests that both start
+// a child (which of the two children the task then refers to is not observable from outside: both write
+// t.taskCmd), and an overlapping KILL of a controllable task (ControllableTask.Kill is a long conversation with
+// the device — GetState, the teardown walk, Close, the wait and the escalation — whose interleavings with a
+// second request are not described by the model; see notes/C17.md for what was seen).
+func parOK(kind, a, b string) bool {
+	if !isRequest(a) || !isRequest(b) || (spawnsChild(kind, a) && spawnsChild(kind, b)) {
+		return false
+	}
+	return !(kind == "ctl" && (a == "kill" || b == "kill"))
+}
+
+type pendingReq struct {
+	op   string
+	id   string // command id of a MESSAGE request
+	resp string // R | H | K
+}
+
+// issue hands the event of one request to the event loop and returns as soon as the loop has TAKEN it (its
+// nextEventNotify goroutine was waiting in Decode). It does not wait for the handler: the next event can be
+// offered at once and is then already waiting when eventLoop asks for it after this event's handler returned —
+// back-to-back delivery, as when the agent's stream carries two events in one chunk. The real handlers
+// (handleMessageEvent, handleKillEvent) look the task up and serve the request in a goroutine of their own, so
+// the first request is in general still being served when the second one is handled.
+func (r *runner) issue(op string) (pendingReq, bool) {
+	p, e := r.request(op)
+	r.fed++
+	dl := time.Now().Add(stepCeiling)
+	for {
+		select {
+		case r.a.events <- e:
+			return p, true
+		case <-time.After(5 * time.Millisecond):
+		}
+		if r.loopEnded() {
+			p.resp = "dead"
+			return p, true
+		}
+		if time.Now().After(dl) {
+			return p, false
+		}
+	}
+}
+
+func (r *runner) request(op string) (pendingReq, *executor.Event) {
+	var data []byte
+	p := pendingReq{op: op, resp: "R"}
+	switch op {
+	case "start":
+		data = r.transitionMsg("CONFIGURED", "START", "RUNNING")
+	case "stop":
+		data = r.transitionMsg("RUNNING", "STOP", "CONFIGURED")
+	case "conf":
+		data = r.transitionMsg("STANDBY", "CONFIGURE", "CONFIGURED")
+	case "trigger":
+		data, p.resp = r.triggerMsg(), "H"
+	case "kill":
+		p.resp = "K"
+		return p, &executor.Event{Type: executor.Event_KILL, Kill: &executor.Event_Kill{TaskID: r.taskID}}
+	}
+	p.id = commandID(data)
+	return p, &executor.Event{Type: executor.Event_MESSAGE, Message: &executor.Event_Message{Data: data}}
+}
+
+func pidLive(pid int) bool {
+	b, err := os.ReadFile("/proc/" + strconv.Itoa(pid) + "/stat")
+	if err != nil {
+		return false
+	}
+	s := string(b)
+	i := strings.LastIndexByte(s, ')')
+	if i < 0 {
+		return false
+	}
+	f := strings.Fields(s[i+1:])
+	return len(f) > 0 && f[0] != "Z" && f[0] != "X"
+}
+
+// latestChild: the pid the latest registered child announced (first id of the last line of the pid file).
+func latestChild(dir string) int {
+	b, _ := os.ReadFile(filepath.Join(dir, "pids"))
+	ls := strings.Split(strings.TrimSpace(string(b)), "\n")
+	if len(ls) == 0 {
+		return 0
+	}
+	f := strings.Fields(ls[len(ls)-1])
+	if len(f) == 0 {
+		return 0
+	}
+	p, _ := strconv.Atoi(f[0])
+	return p
+}
+
+// overlap: request B is delivered while request A is still being served — as far as the code under test lets it
+// be: A's event is fed, and as soon as A's HANDLER has returned (the request itself runs on in the goroutine the
+// handler started) B's event is fed; only then are the completion signals of both awaited. Nothing of the task
+// is touched by the harness: both requests go through eventLoop and the real handlers.
+// Result line: RES i (par rA rB). The second value: a KILL of the pair was carried out.
+func (r *runner) overlap(i int, opA, opB string) (stepOutcome, bool) {
+	a := r.a
+	m := a.mark()
+	wasRunning := r.kind == "basic" && r.started > 0 && a.count(func(x rec) bool { return x.kind == "E" }, r.curMark) == 0
+	child := latestChild(r.dir)
+	pa, ok := r.issue(opA)
+	if !ok {
+		return stepHang, false
+	}
+	pb, ok := r.issue(opB)
+	if !ok {
+		return stepHang, false
+	}
+	// both handlers have returned when eventLoop asks for the event after B's
+	k := r.fed
+	if !r.waitFor(func() bool { return atomic.LoadInt32(&r.a.decodes) >= k+1 || r.loopEnded() }, stepCeiling) {
+		return stepHang, false
+	}
+	reqs := []pendingReq{pa, pb}
+	// KILLs: one that found no active task was logged inside its handler (already returned); the others were
+	// carried out = Kill() was called = a terminal status follows. A's look-up precedes B's: if one of two was
+	// refused it is B.
+	nKill := 0
+	for _, p := range reqs {
+		if p.resp == "K" {
+			nKill++
+		}
+	}
+	refused := a.count(func(x rec) bool { return x.kind == "K" }, m)
+	if r.loopEnded() && nKill > 0 {
+		// a KILL ended the event loop (the code before `kill_inactive_ends_loop` was repaired)
+		refused = 0
+	}
+	carried := nKill - refused
+	if carried < 0 {
+		a.say("INCONCLUSIVE more refused KILLs than KILLs")
+		return stepInconclusive, false
+	}
+	res := make([]string, 2)
+	for k, p := range reqs {
+		switch p.resp {
+		case "dead":
+			res[k] = "dead"
+		case "K":
+			// filled in below
+		default:
+			var got rec
+			found := r.waitFor(func() bool {
+				var f bool
+				got, f = a.find(func(x rec) bool { return (x.kind == p.resp || x.kind == "L") && x.id == p.id }, m)
+				return f
+			}, killCeiling)
+			if !found {
+				return stepHang, false
+			}
+			switch {
+			case got.kind == "L":
+				res[k] = got.a
+			case p.resp == "R":
+				res[k] = fmt.Sprintf("(r %s %s)", got.a, got.b)
+			default:
+				res[k] = fmt.Sprintf("(h %s)", got.b)
+			}
+		}
+	}
+	if carried > 0 {
+		if !r.waitFor(func() bool {
+			return a.count(func(x rec) bool { return x.kind == "S" && isTerminal(x.a) }, m) >= carried
+		}, killCeiling) {
+			return stepHang, false
+		}
+	}
+	left := carried
+	for k, p := range reqs {
+		if p.resp != "K" {
+			continue
+		}
+		switch {
+		case r.loopEnded() && left == 0:
+			res[k] = "loopexit"
+		case left > 0:
+			res[k] = "ok"
+			left--
+		default:
+			res[k] = "ignored"
+		}
+	}
+	if carried > 0 && (spawnsChild(r.kind, opA) || spawnsChild(r.kind, opB)) {
+		// startBasicTask answers right after it has started its reaper goroutine; what that goroutine does first
+		// (it reads t.taskCmd, which a KILL clears) belongs to this step: give it time to be scheduled
+		time.Sleep(40 * time.Millisecond)
+	}
+	a.say("RES %d (par %s %s)", i, res[0], res[1])
+	// What the requests left behind. A STOP of a basic task signals the group of the child it finds BEFORE it
+	// answers, and both answers are in: a child that was signalled is dead, dying or has SIGKILL pending, and its
+	// reaper then reports it (BASIC_TASK_TERMINATED) — that report belongs to this step.
+	stopToo := r.kind == "basic" && (opA == "stop" || opB == "stop")
+	reports := func() int { return a.count(func(x rec) bool { return x.kind == "E" }, m) }
+	expect := 0
+	if wasRunning && stopToo && child > 0 && r.signalled(child) {
+		expect++
+		if !r.waitFor(func() bool { return reports() >= expect }, stepCeiling) {
+			a.say("INCONCLUSIVE stopped child was not reaped")
+			return stepInconclusive, false
+		}
+	}
+	// a START / trigger that was served started a child: wait until it has registered itself — or, when the STOP
+	// of the same pair killed it before it could, until it has been reaped
+	for k, p := range reqs {
+		if !spawnsChild(r.kind, p.op) || !(res[k] == "(r RUNNING 0)" || res[k] == "(h 0)") {
+			continue
+		}
+		want := r.started + 1
+		if !r.waitFor(func() bool { return r.nChildren() >= want || (stopToo && reports() > expect) }, stepCeiling) {
+			a.say("INCONCLUSIVE child did not register")
+			return stepInconclusive, false
+		}
+		if r.nChildren() >= want {
+			r.started = want
+			r.curMark = a.mark()
+			if c := latestChild(r.dir); stopToo && reports() == expect && r.signalled(c) {
+				if !r.waitFor(func() bool { return reports() > expect }, stepCeiling) {
+					a.say("INCONCLUSIVE stopped child was not reaped")
+					return stepInconclusive, false
+				}
+			}
+		}
+	}
+	return stepOK, carried > 0
+}
+
+// killPending: is SIGKILL pending for the process (sent, not yet acted upon)?
+func killPending(pid int) bool {
+	b, err := os.ReadFile("/proc/" + strconv.Itoa(pid) + "/status")
+	if err != nil {
+		return false
+	}
+	for _, l := range strings.Split(string(b), "\n") {
+		if strings.HasPrefix(l, "SigPnd:") || strings.HasPrefix(l, "ShdPnd:") {
+			f := strings.Fields(l)
+			if len(f) == 2 {
+				if v, err := strconv.ParseUint(f[1], 16, 64); err == nil && v&(1<<(uint(syscall.SIGKILL)-1)) != 0 {
+					return true
+				}
+			}
+		}
+	}
+	return false
+}
+
+// signalled: has the process been SIGKILLed? Dead or a zombie: yes. SIGKILL pending: yes, wait for it to die.
+// Alive without a pending SIGKILL for 150 ms: no (between taking the signal and becoming a zombie a process
+// only runs kernel exit code).
+func (r *runner) signalled(pid int) bool {
+	dl := time.Now().Add(150 * time.Millisecond)
+	for {
+		if !pidLive(pid) {
+			return true
+		}
+		if killPending(pid) {
+			return r.waitFor(func() bool { return !pidLive(pid) }, stepCeiling)
+		}
+		if time.Now().After(dl) {
+			return false
+		}
+		time.Sleep(2 * time.Millisecond)
+	}
+}
+
 func runnerMain(input, dir string) {
 	logrus.SetOutput(io.Discard)
 	logrus.SetLevel(logrus.WarnLevel)
@@ -638,6 +949,28 @@ func runnerMain(input, dir string) {
 	// gives it a position (`tick`, or the very end). If it fired before that position the run is not the
 	// schedule that was asked for: inconclusive, never a verdict.
 	early := func() bool { return basicLike && !ticked && sawRunning() }
+	// afterKill: a KILL of a basic/hook task has just been carried out (its terminal status was seen).
+	afterKill := func() bool {
+		if basicLike && !ticked {
+			// The KILL was carried out before the timer's position. Whether the timer still fires is an
+			// observation: absent = cancelled; present although the terminal status was out before the timer
+			// was due = reported after the terminal status (it is in the emissions, in order). If the timer was
+			// already due when the terminal status was seen, the run is not the schedule that was asked for.
+			raced := time.Since(r.launchT) >= runningDelay
+			left := time.Until(r.launchT.Add(runningWindow))
+			if left < 100*time.Millisecond {
+				left = 100 * time.Millisecond
+			}
+			fired := r.waitFor(sawRunning, left)
+			if fired && raced {
+				a.say("INCONCLUSIVE running timer was due while the kill was carried out")
+				return false
+			}
+			ticked = true
+			timerDead = !fired
+		}
+		return true
+	}
 	end := func(i int, o stepOutcome) bool {
 		switch o {
 		case stepHang:
@@ -707,10 +1040,17 @@ func runnerMain(input, dir string) {
 	for j := 0; j < ops.Len(); j++ {
 		i := j + 1
 		op := ops.At(j).Str()
+		if ops.At(j).IsList {
+			op = "par"
+		}
 		a.say("OP %d %s", i, op)
 		if r.loopEnded() {
 			// the executor's event loop is gone: nothing can be delivered any more
-			a.say("RES %d dead", i)
+			if op == "par" {
+				a.say("RES %d (par dead dead)", i)
+			} else {
+				a.say("RES %d dead", i)
+			}
 			continue
 		}
 		if early() {
@@ -783,23 +1123,8 @@ func runnerMain(input, dir string) {
 				a.say("HANG %d", i)
 				return
 			}
-			if basicLike && !ticked {
-				// The KILL was carried out before the timer's position. Whether the timer still fires is an
-				// observation: absent = cancelled; present although the terminal status was out before the timer
-				// was due = reported after the terminal status (it is in the emissions, in order). If the timer was
-				// already due when the terminal status was seen, the run is not the schedule that was asked for.
-				raced := time.Since(r.launchT) >= runningDelay
-				left := time.Until(r.launchT.Add(runningWindow))
-				if left < 100*time.Millisecond {
-					left = 100 * time.Millisecond
-				}
-				fired := r.waitFor(sawRunning, left)
-				if fired && raced {
-					a.say("INCONCLUSIVE running timer was due while the kill was carried out")
-					return
-				}
-				ticked = true
-				timerDead = !fired
+			if !afterKill() {
+				return
 			}
 			a.say("RES %d ok", i)
 		case "await":
@@ -817,6 +1142,19 @@ func runnerMain(input, dir string) {
 				return
 			}
 			a.say("RES %d ok", i)
+		case "par":
+			el := ops.At(j)
+			if el.Len() != 3 || el.At(0).Str() != "par" || !parOK(r.kind, el.At(1).Str(), el.At(2).Str()) {
+				a.say("INCONCLUSIVE unsupported overlap %s", el.String())
+				return
+			}
+			o, killed := r.overlap(i, el.At(1).Str(), el.At(2).Str())
+			if end(i, o) {
+				return
+			}
+			if killed && !afterKill() {
+				return
+			}
 		default:
 			a.say("INCONCLUSIVE unknown op %s", op)
 			return
